@@ -133,7 +133,7 @@ func mathLog10(L *LState) int {
 	// (log10(1000) = 2.9999999999999996): where the nearest integer is the exact answer, it is the answer
 	if r := math.Round(v); r != v && math.Abs(r-v) < 1e-9 && r >= -323 && r <= 308 {
 		// (the power of ten itself is read as a numeral: math.Pow(10, r) is not exact either)
-		if p10, err := strconv.ParseFloat("1e"+strconv.Itoa(int(r)), 64); err == nil && p10 == x {
+		if p10, err := parseNumber("1e" + strconv.Itoa(int(r))); err == nil && float64(p10) == x {
 			v = r
 		}
 	}
